@@ -25,6 +25,8 @@ META = {
     'exhaustive': True,
 }
 
+META['explanation'] += ' ' + 'R1: __lt__ and __eq__ folded over all ordered pairs of the version table (results merged with an AttributeError handler are settled for version operands) and checked against the order axioms and the specified chain. R4: explicit comparison methods answer NotImplemented for operands that are not versions.'
+
 HERE = os.path.dirname(os.path.dirname(os.path.abspath(__file__)))
 
 
